@@ -101,4 +101,30 @@ def handleHist (layers init ops : String) : String :=
     ";".intercalate outs.reverse ++ "|" ++ dump m
   | _, _ => "bad-op"
 
+/-- untar <strip> <hexname>=<content>,... : entries in archive order; a rejected entry aborts
+    (earlier entries stay written); skipped entries are ignored. Regular files only. -/
+def handleUntar (strip entries : String) : String :=
+  match strip.toNat? with
+  | none => "bad-op"
+  | some n =>
+    let es := if entries = "-" then [] else entries.splitOn ","
+    let rec go : List String → Mem → String × Mem
+      | [], m => ("ok", m)
+      | e :: rest, m =>
+        match e.splitOn "=" with
+        | [k, v] =>
+          match hexDecode k with
+          | none => ("bad-op", m)
+          | some name =>
+            match unmapArchivePath (s2l name) n (fun _ => true) with
+            | .error er => (errS er, m)
+            | .ok none => go rest m
+            | .ok (some p) =>
+              match memPut m p (if v = "-" then "" else v) with
+              | .ok m' => go rest m'
+              | .error er => (errS er, m)
+        | _ => ("bad-op", m)
+    let (res, m) := go es []
+    res ++ "|" ++ dump m
+
 end Driver.Bucket
